@@ -584,7 +584,7 @@ func init() {
 	rw := Spec[c36RW]{
 		ID: "C36", Suite: "rw", CoqImports: []string{"Common.Media1Util", "Check.C36"},
 		CoqType: "Check.C36.rw_in", CoqRun: "Check.C36.run_rw",
-		Quick: 500, Thorough: 10000, Parallel: 8,
+		Quick: 500, Thorough: 6000, Parallel: 8,
 		Corpus: func() []c36RW {
 			return []c36RW{
 				// witnesses of the design probes (repaired: fixed: lines in known/C36.txt)
@@ -608,7 +608,7 @@ func init() {
 	}
 	Register(rw)
 	rwb := rw
-	rwb.Suite, rwb.Quick, rwb.Thorough = "rwb", 16, 300
+	rwb.Suite, rwb.Quick, rwb.Thorough = "rwb", 16, 200
 	rwb.Corpus = func() []c36RW {
 		out := []c36RW{one(c36Pkt{OffNs: 5e6, Pay: m1Pay{Len: 65530, A: 1, B: 1}})} // design probe: length field wraps to 2
 		type sz struct {
@@ -632,7 +632,7 @@ func init() {
 	rd := Spec[c36RD]{
 		ID: "C36", Suite: "rd", CoqImports: []string{"Common.Media1Util", "Check.C36"},
 		CoqType: "list pspec", CoqRun: "Check.C36.run_rd",
-		Quick: 600, Thorough: 12000, Parallel: 8,
+		Quick: 600, Thorough: 8000, Parallel: 8,
 		Corpus: func() []c36RD {
 			var out []c36RD
 			// every length field 0..15: alone, and after a good record
@@ -660,7 +660,7 @@ func init() {
 	}
 	Register(rd)
 	rdb := rd
-	rdb.Suite, rdb.Quick, rdb.Thorough = "rdb", 12, 300
+	rdb.Suite, rdb.Quick, rdb.Thorough = "rdb", 12, 200
 	rdb.Corpus = func() []c36RD {
 		// design probe: length field 4 swallows 65532 bytes as payload
 		out := []c36RD{{Pre: pre, PreValid: true, Recs: []c36Rec{
